@@ -91,6 +91,7 @@ def mount_variant(repo, variant, dst, access_path, counts):
             if variant == "sched":
                 n2 = text.count("std::sync::")
                 text = text.replace("std::sync::", "vstd::sync::")
+                text = text.replace("core::sync::atomic::", "vstd::sync::atomic::")
                 counts["R2"] = counts.get("R2", 0) + n2
             # R3: macOS entry encoder compiled on the host (encoder only; common.rs is untouched)
             if rel == os.path.join("injector_core", "arm64_codegenerator.rs"):
